@@ -74,9 +74,9 @@ Lemma first_accept_some : forall n accept c k, first_accept n accept c = Some k 
 Proof.
   induction n as [| n IH]; intros accept c k H; [discriminate H |].
   cbn [first_accept] in H. destruct (accept c) eqn:Ea.
-  - injection H as <-. repeat split; try lia; auto. intros j Hj. lia.
-  - destruct (IH accept (S c) k H) as (Hr & Hk & Hbefore). repeat split; try lia; auto.
-    intros j Hj. destruct (Nat.eq_dec j c) as [-> | Hne]; [exact Ea | apply Hbefore; lia].
+  - injection H as <-. repeat split; try lia; auto; intros j Hj; lia.
+  - destruct (IH accept (S c) k H) as (Hr & Hk & Hbefore). repeat split; try lia; auto;
+    intros j Hj; destruct (Nat.eq_dec j c) as [-> | Hne]; [exact Ea | apply Hbefore; lia].
 Qed.
 
 Lemma first_accept_none : forall n accept c, first_accept n accept c = None ->
@@ -98,8 +98,8 @@ Proof.
   - replace (Z.to_nat (retries + 1)) with 0%nat by lia.
     cbn [transmit_loop first_accept].
     assert ((0 <=? retries)%Z = false) as Hc by (apply Z.leb_gt; lia). rewrite Hc. reflexivity.
-  - rewrite <- (loop_spec (Z.to_nat (retries + 1)) 130 0 accept) by lia.
-    f_equal. lia.
+  - replace retries with (Z.of_nat (Z.to_nat (retries + 1)) - 1)%Z at 1 by lia.
+    rewrite (loop_spec (Z.to_nat (retries + 1)) 130 0 accept) by lia. reflexivity.
 Qed.
 
 (* expanded reading of the result *)
@@ -114,13 +114,17 @@ Proof.
   intros H. rewrite (transmit_spec retries accept H).
   destruct (first_accept (attempts retries) accept 0) as [k |] eqn:E.
   - destruct (first_accept_some _ _ _ _ E) as (Hr & Hk & Hb).
-    exists true, (S k). repeat split; auto; try lia.
-    + intros _. exists k. split; [lia | exact Hk].
-    + intros _. exists k. repeat split; auto. intros j Hj. apply Hb. lia.
+    exists true, (S k). split; [reflexivity |]. split; [| split; [| split]].
+    + split; [intros _; exists k; split; [lia | exact Hk] | intros _; reflexivity].
+    + intros _. exists k. split; [reflexivity |]. split; [exact Hk |]. intros j Hj. apply Hb. lia.
     + discriminate.
+    + lia.
   - pose proof (first_accept_none _ _ _ E) as Hn.
-    exists false, (attempts retries). repeat split; auto; try discriminate.
-    intros [k [Hk Ha]]. rewrite (Hn k) in Ha by lia. discriminate.
+    exists false, (attempts retries). split; [reflexivity |]. split; [| split; [| split]].
+    + split; [discriminate |]. intros [k [Hk Ha]]. rewrite (Hn k) in Ha by lia. discriminate.
+    + discriminate.
+    + reflexivity.
+    + lia.
 Qed.
 
 (* ---- SendData's uint16 length ---- *)
@@ -161,7 +165,7 @@ Section RoundTrip.
   Proof.
     intros Hm Hc Hs. destruct (items_of_msgs msgs Hm) as (H1 & H2 & H3).
     assert (feed p0 p1 init chunks = Done init msgs) as Hf.
-    { rewrite <- H2 at 2. apply (reassembly p0 p1 _ [] chunks); auto. rewrite H3. exact Hs. }
+    { rewrite <- H2 at 1. apply (reassembly p0 p1 _ [] chunks); auto. rewrite H3. exact Hs. }
     split; [exact Hf |]. unfold round_trip. rewrite Hf. reflexivity.
   Qed.
 End RoundTrip.
